@@ -23,6 +23,7 @@ import AGH.Lemmas.RuleListParse
 import AGH.Lemmas.RuleListTrimFacts
 import AGH.Lemmas.RuleListLink
 import AGH.Lemmas.RuleListBurst
+import AGH.Lemmas.RuleListAccept
 namespace AGH.C15
 open AGH AGH.Bytes
 
@@ -288,6 +289,48 @@ theorem C15_stored_form_is_normal_form (src : Bytes) (h : (parse src true).err =
     (parse src true).st.crc = crcLines 0 (specLines src) ∧
     htmlDoc src = false ∧ binaryDoc src = false :=
   parse_normal src h
+
+/-- **The byte-level parser equals the declarative normal form.**  For every
+byte string the parser accepts (`bufio.Scanner` line splitting with `dropCR`
+and the 64 KiB token limit, `bytes.TrimSpace` with its Unicode set on valid and
+invalid UTF-8, `#`/`!` comment classes — `##…` cosmetic rules are comments too,
+there is no exception —, title extraction, the HTML test on the first line that
+would be written, the binary test on rule lines, running CRC-32 over the
+trimmed rule lines): bytes written = `normalForm src`, count = number of its
+lines, checksum = CRC over them. -/
+theorem C15_parser_equals_normal_form (src : Bytes) (h : (parse src true).err = none) :
+    (parse src true).out = normalForm src ∧
+    (parse src true).st.count = (specLines src).length ∧
+    (parse src true).st.crc = crcLines 0 (specLines src) :=
+  ⟨(parse_normal src h).1, (parse_normal src h).2.1, (parse_normal src h).2.2.1⟩
+
+/-- **Which byte strings are accepted** — declaratively, for every byte
+string: the parser succeeds on a complete body exactly when the body is not an
+HTML document (first kept line starts with `<html` / `<!doctype`, any case),
+no kept line has a control byte other than TAB (CR/LF cannot occur), and no
+LF-terminated line — CR included — is 65 536 bytes or longer.  Together with
+`C15_parser_equals_normal_form` the parser is fully described on complete
+bodies; on a cut body it always fails (`C15_cut_body_fails`). -/
+theorem C15_acceptance_characterised (src : Bytes) :
+    (parse src true).err = none ↔
+      (htmlDoc src = false ∧ binaryDoc src = false ∧ ∀ l ∈ splitOn nl src, l.length < maxToken) :=
+  parse_accepts_iff src
+
+/-- The normal form is idempotent — for EVERY byte string, accepted or not. -/
+theorem C15_normal_form_idempotent (src : Bytes) : normalForm (normalForm src) = normalForm src := by
+  unfold normalForm
+  rw [specLines_joinLines (specLines src) (specLines_facts src)]
+
+/-- Re-parsing the stored form (what `load` does at start-up) yields the same
+bytes, the same rule count and the same checksum, at byte level. -/
+theorem C15_reparse_same_count_and_checksum (src : Bytes) (h : (parse src true).err = none) :
+    (parse (normalForm src) true).err = none ∧
+    (parse (normalForm src) true).out = normalForm src ∧
+    (parse (normalForm src) true).st.count = (parse src true).st.count ∧
+    (parse (normalForm src) true).st.crc = (parse src true).st.crc := by
+  have := C15_normal_form_fixed_point src h
+  rw [(parse_normal src h).1] at this
+  exact this
 
 /-- Each failure the property enumerates (cut body, HTML, binary content,
 failed transfer / unreadable file) is a failure of `update`. -/
@@ -564,6 +607,16 @@ example : (parse [97, 10, 98, 0, 99] true).err = some (.binary 2 2 0) := by deci
 example : (parse [97, 10, 98] false).err = some .read := by decide +kernel
 -- a consistent, non-pristine list state exists and a refresh does change it
 example : refreshOne ⟨true, 0, 0, none⟩ (.body [97, 10] true) ≠ ⟨true, 0, 0, none⟩ := by decide +kernel
+
+-- observations about the parser, as the code is (none contradicts C15):
+-- a UTF-8 BOM is not white space for `bytes.TrimSpace`, so "\ufeff! c" is kept as a RULE line
+example : (parse [0xEF, 0xBB, 0xBF, 33, 32, 99, 10] true).st.count = 1 := by decide +kernel
+-- "##.ad" (a cosmetic rule) starts with '#': dropped as a comment, like every "#…" line
+example : (parse [35, 35, 46, 97, 100, 10, 97, 10] true).out = [97, 10] := by decide +kernel
+-- an HTML opener AFTER a rule line is stored as a rule (the test only guards the first written line)
+example : (parse [97, 10, 60, 104, 116, 109, 108, 62, 10] true).err = none := by decide +kernel
+-- … while one after comments and blank lines only is refused
+example : (parse [35, 99, 10, 10, 60, 104, 116, 109, 108, 62, 10] true).err = some .html := by decide +kernel
 
 -- regression case of the defect repaired by f646577 (corpus/C15/refresh.txt): lists 0 = allow,
 -- 1 = block, 2 = block; the allow array fails completely while block list 1 is updated —
